@@ -4,3 +4,5 @@ pub mod sharding;
 pub mod replication;
 pub mod derive;
 pub mod typecompat;
+pub mod retry;
+pub mod specexec;
